@@ -86,6 +86,52 @@ class C07(XsProp):
                 case = 'xs limits 4000 - - | eval %s | stack' % hexsrc(form % bad)
                 cs.append(case)
                 self.refuse.add(case)
+        # bitstr>utf8 (in the model since round 11): the inverse of packing a string - strict UTF-8, checked against an independent decoder
+        self.utf8 = {}
+        edge = [b'', b'A', b'h\xc3\xa9\xe2\x82\xac\xf0\x9f\x98\x80', b'\xed\xa0\x80', b'\xed\x9f\xbf', b'\xf4\x90\x80\x80', b'\xf4\x8f\xbf\xbf',
+                b'\xc0\x80', b'\xc1\xbf', b'\xc2\x80', b'\xe0\x80\x80', b'\xe0\x9f\xbf', b'\xe0\xa0\x80', b'\xf0\x80\x80\x80', b'\xf0\x8f\xbf\xbf',
+                b'\xf0\x90\x80\x80', b'\x80', b'\xbf', b'\xe2\x82', b'\xf0\x9f\x98', b'\xf5\x80\x80\x80', b'\xff', b'\xfe', b'a\x80b', b'\xef\xbf\xbf',
+                b'\xee\x80\x80', b'\xdf\xbf', b'\xdf', b'ab\xc3', b'\x00', b'\x7f']
+        pool = [0x00, 0x41, 0x7f, 0x80, 0x8f, 0x90, 0x9f, 0xa0, 0xbf, 0xc0, 0xc1, 0xc2, 0xdf, 0xe0, 0xe1, 0xec, 0xed, 0xee, 0xef, 0xf0, 0xf1, 0xf3, 0xf4, 0xf5, 0xff]
+        datas = list(edge)
+        for _ in range(250 if tier == 'quick' else 20000):
+            k = rng.random()
+            if k < 0.4:
+                datas.append(bytes(rng.choice(pool) for _ in range(rng.randint(1, 6))))
+            elif k < 0.8:
+                t = ''.join(chr(rng.choice([rng.randint(0x20, 0x7e), rng.randint(0x80, 0x7ff), rng.randint(0x800, 0xd7ff), rng.randint(0xe000, 0xffff),
+                                            rng.randint(0x10000, 0x10ffff)])) for _ in range(rng.randint(0, 8)))
+                datas.append(t.encode('utf-8'))
+            else:
+                b = bytearray(''.join(chr(rng.randint(0x80, 0x10ffff) if rng.random() < 0.5 else rng.randint(0x20, 0x7e)) for _ in range(rng.randint(1, 5))).encode('utf-8', 'ignore'))
+                if b:
+                    i = rng.randrange(len(b))
+                    if rng.random() < 0.5:
+                        b[i] = rng.choice(pool)
+                    else:
+                        del b[i]
+                datas.append(bytes(b))
+        for d in datas:
+            off = rng.choice([0, 0, 3, 8, 5])
+            bits = ''.join('{:08b}'.format(x) for x in d)
+            if off == 0:
+                case = 'xs limits 4000 - - | push B%s | eval %s | stack' % (bits or '-', hexsrc('bitstr>utf8'))
+            else:
+                allbits = ''.join(rng.choice('01') for _ in range(off)) + bits + ''.join(rng.choice('01') for _ in range((-(off + len(bits))) % 8 + 8))
+                hx_ = ''.join('%02x' % int(allbits[i:i + 8], 2) for i in range(0, len(allbits), 8))
+                case = 'xs limits 4000 - - | input %s %d %d | eval %s | stack' % (hx_, off, len(allbits), hexsrc('%d bits bitstr>utf8' % len(bits)))
+            cs.append(case)
+            self.utf8[case] = d
+            try:
+                d.decode('utf-8')
+                # packing the string again gives the bytes back
+                case2 = 'xs limits 4000 - - | push S%s | eval %s | stack' % (d.hex() or '-', hexsrc('dup >bitstr bitstr>utf8 equal?'))
+                cs.append(case2)
+                self.utf8[case2] = None
+            except UnicodeDecodeError:
+                pass
+        for bad in ['|41 4|', '|x|', '5', '"s"', 'nil', '[ 65 ]']:
+            cs.append('xs limits 4000 - - | eval %s | stack' % hexsrc('%s bitstr>utf8' % bad))
         for i in range(n):
             fs = []
             order = 'little'
@@ -131,6 +177,25 @@ class C07(XsProp):
                 sk = [t for t in ou[-1].strip('[] ').split(' ') if t]
                 if ou[-2] != 'ok' or len(sk) < 2 or sk[-1] != sk[-2]:
                     fails.append(('case: %s\nsource: %s\nresult: %s' % (c, src_of(c)[0], o[:300]), 'output-length is not the length of output'))
+                continue
+            if c in getattr(self, 'utf8', {}):
+                n += 1
+                d = self.utf8[c]
+                ou = o.split(' | ')
+                sk = [t for t in ou[-1].strip('[] ').split(' ') if t]
+                if d is None:
+                    if ou[-2] != 'ok' or sk != ['T']:
+                        fails.append(('case: %s\nresult: %s' % (c, o[:300]), 'a string packed with >bitstr did not come back through bitstr>utf8'))
+                    continue
+                try:
+                    want = d.decode('utf-8')
+                except UnicodeDecodeError:
+                    want = None
+                if want is None:
+                    if ou[-2] == 'ok' or sk:
+                        fails.append(('case: %s\nbytes: %s\nresult: %s' % (c, d.hex(), o[:300]), 'bitstr>utf8 accepted bytes that are not well-formed UTF-8 (or left something behind)'))
+                elif ou[-2] != 'ok' or sk != ['S' + (d.hex() or '-')]:
+                    fails.append(('case: %s\nbytes: %s\nresult: %s' % (c, d.hex(), o[:300]), 'bitstr>utf8 did not return the string with exactly these bytes'))
                 continue
             if c in getattr(self, 'refuse', ()):
                 n += 1
